@@ -8,13 +8,13 @@ theorem step_pack (a a' : ArraySized) (op : Spec.SSeq.Op Elem) (m m' : Mem) (o :
     (hs1 : (a.step op m).1 = o) (hs2 : (a.step op m).2.1 = a') (hs3 : (a.step op m).2.2 = m')
     (hst : o.st ≠ some .errAlloc ∧ o.st ≠ some .errMaxCapacity)
     (hspec : (Spec.SSeq.step a.abs op none) = (o, a'.abs))
-    (hinv : a'.Inv) (hg : a'.grow = a.grow) (hdl : a'.dataLen = a.dataLen) (hm : MemSame m m') :
+    (hinv : a'.Inv) (hg : a'.cfg = a.cfg) (hdl : a'.dataLen = a.dataLen) (hm : MemSame a.triple m m') :
     (a.step op m).1 = (Spec.SSeq.step a.abs op (a.refusal op m)).1 ∧
     (a.step op m).2.1.abs = (Spec.SSeq.step a.abs op (a.refusal op m)).2 ∧
-    (a.step op m).2.1.Inv ∧ (a.step op m).2.1.grow = a.grow ∧ (a.step op m).2.1.dataLen = a.dataLen ∧
-    MemSame m (a.step op m).2.2 ∧
+    (a.step op m).2.1.Inv ∧ (a.step op m).2.1.cfg = a.cfg ∧ (a.step op m).2.1.dataLen = a.dataLen ∧
+    MemSame a.triple m (a.step op m).2.2 ∧
     (a.refusal op m ≠ none → (a.step op m).2.1 = a) ∧
-    (a.refusal op m = some .errAlloc → m.alloc.1 = false) ∧
+    (a.refusal op m = some .errAlloc → (m.allocT a.triple).1 = false) ∧
     (a.refusal op m = some .errMaxCapacity → a.AtLimit) := by
   have hstep : a.step op m = (o, a', m') := Prod.ext hs1 (Prod.ext hs2 hs3)
   have hr : a.refusal op m = none := by
@@ -32,10 +32,10 @@ theorem step_refines (a : ArraySized) (op : Spec.SSeq.Op Elem) (m : Mem) (h : a.
     (hw : OpWF a.dataLen op) :
     (a.step op m).1 = (Spec.SSeq.step a.abs op (a.refusal op m)).1 ∧
     (a.step op m).2.1.abs = (Spec.SSeq.step a.abs op (a.refusal op m)).2 ∧
-    (a.step op m).2.1.Inv ∧ (a.step op m).2.1.grow = a.grow ∧ (a.step op m).2.1.dataLen = a.dataLen ∧
-    MemSame m (a.step op m).2.2 ∧
+    (a.step op m).2.1.Inv ∧ (a.step op m).2.1.cfg = a.cfg ∧ (a.step op m).2.1.dataLen = a.dataLen ∧
+    MemSame a.triple m (a.step op m).2.2 ∧
     (a.refusal op m ≠ none → (a.step op m).2.1 = a) ∧
-    (a.refusal op m = some .errAlloc → m.alloc.1 = false) ∧
+    (a.refusal op m = some .errAlloc → (m.allocT a.triple).1 = false) ∧
     (a.refusal op m = some .errMaxCapacity → a.AtLimit) := by
   cases op with
   | add x =>
@@ -78,7 +78,7 @@ theorem step_refines (a : ArraySized) (op : Spec.SSeq.Op Elem) (m : Mem) (h : a.
       · exact h
       · rfl
       · rfl
-      · exact MemSame.refl m
+      · exact MemSame.refl _ m
   | replaceAt x i =>
     by_cases hi : i < a.size
     · have hs := replaceAt_spec a x i m h hw hi
@@ -92,7 +92,7 @@ theorem step_refines (a : ArraySized) (op : Spec.SSeq.Op Elem) (m : Mem) (h : a.
       · have := hs.2.1; rw [hs.1] at this; exact this
       · exact rfl
       · rfl
-      · exact MemSame.refl m
+      · exact MemSame.refl _ m
     · apply step_pack a a _ m m { st := some .errOutOfRange }
       · simp only [step, replaceAt_inert a x i m (by omega)]
       · simp only [step, replaceAt_inert a x i m (by omega)]
@@ -102,7 +102,7 @@ theorem step_refines (a : ArraySized) (op : Spec.SSeq.Op Elem) (m : Mem) (h : a.
       · exact h
       · rfl
       · rfl
-      · exact MemSame.refl m
+      · exact MemSame.refl _ m
   | swapAt i j =>
     by_cases hi : i < a.size ∧ j < a.size
     · obtain ⟨s1, s2, s3, s4, s5, s6, s7, s8⟩ := swapAt_spec a i j m h hi.1 hi.2
@@ -116,7 +116,7 @@ theorem step_refines (a : ArraySized) (op : Spec.SSeq.Op Elem) (m : Mem) (h : a.
       · exact s3
       · exact s6
       · exact s5
-      · exact MemSame.refl m
+      · exact MemSame.refl _ m
     · apply step_pack a a _ m m { st := some .errOutOfRange }
       · simp only [step, swapAt_inert a i j m (by omega)]
       · simp only [step, swapAt_inert a i j m (by omega)]
@@ -130,7 +130,7 @@ theorem step_refines (a : ArraySized) (op : Spec.SSeq.Op Elem) (m : Mem) (h : a.
       · exact h
       · rfl
       · rfl
-      · exact MemSame.refl m
+      · exact MemSame.refl _ m
   | remove x =>
     obtain ⟨s1, s2, s3, s4, s5, s6, s7, s8⟩ := remove_spec a x m h hw
     apply step_pack a (a.remove x m).2.1 _ m m { st := some (a.remove x m).1 }
@@ -144,7 +144,7 @@ theorem step_refines (a : ArraySized) (op : Spec.SSeq.Op Elem) (m : Mem) (h : a.
     · exact s3
     · exact s7
     · exact s6
-    · exact MemSame.refl m
+    · exact MemSame.refl _ m
   | removeAt i =>
     by_cases hi : i < a.size
     · obtain ⟨s1, s2, s3, s4, s5, s6, s7, s8, s9⟩ := removeAt_spec a i m h hi
@@ -157,7 +157,7 @@ theorem step_refines (a : ArraySized) (op : Spec.SSeq.Op Elem) (m : Mem) (h : a.
       · exact s4
       · exact s7
       · exact s6
-      · exact MemSame.refl m
+      · exact MemSame.refl _ m
     · apply step_pack a a _ m m { st := some .errOutOfRange }
       · simp only [step, removeAt_inert a i m (by omega)]
       · simp only [step, removeAt_inert a i m (by omega)]
@@ -167,7 +167,7 @@ theorem step_refines (a : ArraySized) (op : Spec.SSeq.Op Elem) (m : Mem) (h : a.
       · exact h
       · rfl
       · rfl
-      · exact MemSame.refl m
+      · exact MemSame.refl _ m
   | removeLast =>
     by_cases h0 : 0 < a.size
     · obtain ⟨s1, s2, s3, s4, s5, s6, s7, s8⟩ := removeLast_spec a m h h0
@@ -182,7 +182,7 @@ theorem step_refines (a : ArraySized) (op : Spec.SSeq.Op Elem) (m : Mem) (h : a.
       · exact s4
       · exact s7
       · exact s6
-      · exact MemSame.refl m
+      · exact MemSame.refl _ m
     · have he : a.abs = [] := by simp [abs, show a.size = 0 by omega]
       apply step_pack a a _ m m { st := some .errOutOfRange }
       · simp only [step, removeLast_inert a m h (by omega)]
@@ -193,7 +193,7 @@ theorem step_refines (a : ArraySized) (op : Spec.SSeq.Op Elem) (m : Mem) (h : a.
       · exact h
       · rfl
       · rfl
-      · exact MemSame.refl m
+      · exact MemSame.refl _ m
   | removeAll =>
     have hs := removeAll_spec a h
     apply step_pack a a.removeAll _ m m {}
@@ -205,7 +205,7 @@ theorem step_refines (a : ArraySized) (op : Spec.SSeq.Op Elem) (m : Mem) (h : a.
     · exact hs.1
     · exact rfl
     · rfl
-    · exact MemSame.refl m
+    · exact MemSame.refl _ m
   | reverse =>
     obtain ⟨s1, s2, s3, s4, s5, s6, s7⟩ := reverse_spec a m h
     apply step_pack a (a.reverse m).1 _ m m {}
@@ -217,7 +217,7 @@ theorem step_refines (a : ArraySized) (op : Spec.SSeq.Op Elem) (m : Mem) (h : a.
     · exact s2
     · exact s5
     · exact s4
-    · exact MemSame.refl m
+    · exact MemSame.refl _ m
   | filterMut p =>
     by_cases h0 : 0 < a.size
     · obtain ⟨s1, s2, s3, s4, s5, s6, s7, s8⟩ := filterMut_spec a p m h h0
@@ -232,7 +232,7 @@ theorem step_refines (a : ArraySized) (op : Spec.SSeq.Op Elem) (m : Mem) (h : a.
       · exact s4
       · exact s7
       · exact s6
-      · exact MemSame.refl m
+      · exact MemSame.refl _ m
     · have he : a.abs = [] := by simp [abs, show a.size = 0 by omega]
       apply step_pack a a _ m m { st := some .errOutOfRange }
       · simp only [step, filterMut_inert a p m (by omega)]; rfl
@@ -243,7 +243,7 @@ theorem step_refines (a : ArraySized) (op : Spec.SSeq.Op Elem) (m : Mem) (h : a.
       · exact h
       · rfl
       · rfl
-      · exact MemSame.refl m
+      · exact MemSame.refl _ m
   | trim =>
     rcases trimCapacity_spec a m h with ⟨h1, h2, h3, h4, h5, h6, h7, h8⟩ | ⟨h1, h2, h3, h4⟩
     · have hr : a.refusal .trim m = none := by simp [refusal, step, h1]
@@ -265,7 +265,7 @@ theorem step_refines (a : ArraySized) (op : Spec.SSeq.Op Elem) (m : Mem) (h : a.
     · exact h
     · rfl
     · rfl
-    · exact MemSame.refl m
+    · exact MemSame.refl _ m
   | getLast =>
     apply step_pack a a _ m m { st := some (Spec.SSeq.getLast a.abs).1, val := (Spec.SSeq.getLast a.abs).2 }
     · simp only [step, getLast_spec a m h, Spec.SSeq.getLast]
@@ -277,7 +277,7 @@ theorem step_refines (a : ArraySized) (op : Spec.SSeq.Op Elem) (m : Mem) (h : a.
     · exact h
     · rfl
     · rfl
-    · exact MemSame.refl m
+    · exact MemSame.refl _ m
   | peek i =>
     apply step_pack a a _ m m { st := some (Spec.SSeq.getAt a.abs i).1, val := (Spec.SSeq.getAt a.abs i).2 }
     · simp only [step, peek_spec, getAt_spec a i m h, Spec.SSeq.getAt, abs_length]
@@ -289,7 +289,7 @@ theorem step_refines (a : ArraySized) (op : Spec.SSeq.Op Elem) (m : Mem) (h : a.
     · exact h
     · rfl
     · rfl
-    · exact MemSame.refl m
+    · exact MemSame.refl _ m
   | indexOf x =>
     apply step_pack a a _ m m { st := some (Spec.SSeq.indexOfSt a.abs x).1, num := (Spec.SSeq.indexOfSt a.abs x).2 }
     · simp only [step, indexOf_spec a x m h hw]
@@ -300,7 +300,7 @@ theorem step_refines (a : ArraySized) (op : Spec.SSeq.Op Elem) (m : Mem) (h : a.
     · exact h
     · rfl
     · rfl
-    · exact MemSame.refl m
+    · exact MemSame.refl _ m
   | contains x =>
     apply step_pack a a _ m m { num := some (Spec.SSeq.contains a.abs x) }
     · simp only [step, contains_spec a x m h hw]
@@ -311,7 +311,7 @@ theorem step_refines (a : ArraySized) (op : Spec.SSeq.Op Elem) (m : Mem) (h : a.
     · exact h
     · rfl
     · rfl
-    · exact MemSame.refl m
+    · exact MemSame.refl _ m
   | map f =>
     obtain ⟨s1, s2, s3, s4, s5, s6, s7⟩ := map_spec a f m h hw
     apply step_pack a (a.map f m).2.1 _ m m { cb := a.abs.map (·, none) }
@@ -323,7 +323,7 @@ theorem step_refines (a : ArraySized) (op : Spec.SSeq.Op Elem) (m : Mem) (h : a.
     · exact s3
     · exact s6
     · exact s5
-    · exact MemSame.refl m
+    · exact MemSame.refl _ m
   | reduce fn r0 =>
     apply step_pack a a _ m m { val := some (Spec.SSeq.reduce fn a.abs r0).2, cb := (Spec.SSeq.reduce fn a.abs r0).1 }
     · simp only [step, reduce_spec a fn r0 m h]
@@ -334,7 +334,7 @@ theorem step_refines (a : ArraySized) (op : Spec.SSeq.Op Elem) (m : Mem) (h : a.
     · exact h
     · rfl
     · rfl
-    · exact MemSame.refl m
+    · exact MemSame.refl _ m
   | sort sortFn =>
     obtain ⟨s1, s2, s3, s4, s5, s6⟩ := sort_spec a sortFn h (hw a.abs)
     apply step_pack a (a.sort sortFn) _ m m {}
@@ -346,33 +346,59 @@ theorem step_refines (a : ArraySized) (op : Spec.SSeq.Op Elem) (m : Mem) (h : a.
     · exact s1
     · exact s4
     · exact s3
-    · exact MemSame.refl m
+    · exact MemSame.refl _ m
 
 /-! ### histories -/
 theorem run_refines (ops : List (Spec.SSeq.Op Elem)) :
     ∀ (a : ArraySized) (m : Mem), a.Inv → (∀ op ∈ ops, OpWF a.dataLen op) →
       (a.run ops m).1 = (Spec.SSeq.run a.abs ops (a.refusals ops m)).1 ∧
       (a.run ops m).2.1.abs = (Spec.SSeq.run a.abs ops (a.refusals ops m)).2 ∧
-      (a.run ops m).2.1.Inv ∧ (a.run ops m).2.1.grow = a.grow ∧ (a.run ops m).2.1.dataLen = a.dataLen ∧
-      MemSame m (a.run ops m).2.2 := by
+      (a.run ops m).2.1.Inv ∧ (a.run ops m).2.1.cfg = a.cfg ∧ (a.run ops m).2.1.dataLen = a.dataLen ∧
+      MemSame a.triple m (a.run ops m).2.2 := by
   induction ops with
-  | nil => intro a m h _; exact ⟨rfl, rfl, h, rfl, rfl, MemSame.refl m⟩
+  | nil => intro a m h _; exact ⟨rfl, rfl, h, rfl, rfl, MemSame.refl _ m⟩
   | cons op ops ih =>
     intro a m h hw
     obtain ⟨s1, s2, s3, s4, s5, s6, _, _, _⟩ := step_refines a op m h (hw op (List.mem_cons_self ..))
     have ih' := ih (a.step op m).2.1 (a.step op m).2.2 s3
       (by intro o ho; rw [s5]; exact hw o (List.mem_cons_of_mem _ ho))
+    have ht : (a.step op m).2.1.triple = a.triple := congrArg Prod.snd s4
+    rw [ht] at ih'
     simp only [run, refusals, Spec.SSeq.run, List.headD_cons, List.tail_cons]
     rw [← s2, ← s1]
     exact ⟨by rw [ih'.1], ih'.2.1, ih'.2.2.1, ih'.2.2.2.1.trans s4, by rw [ih'.2.2.2.2.1, s5], MemSame.trans s6 ih'.2.2.2.2.2⟩
 
 /-! ### constructor and destructor -/
+/-- outcome of the two allocations of a constructor or builder on triple `t`: both granted (two more
+live blocks of that triple), or one refused (only possible on the configured triple; ledger as before) -/
+theorem two_allocs (m : Mem) (t : Triple) :
+    ((m.allocT t).1 = true ∧ ((m.allocT t).2.allocT t).1 = true ∧
+      own ((m.allocT t).2.allocT t).2 t = own m t + 2 ∧ ((m.allocT t).2.allocT t).2.fault = m.fault ∧
+      Other t m ((m.allocT t).2.allocT t).2) ∨
+    ((m.allocT t).1 = true ∧ ((m.allocT t).2.allocT t).1 = false ∧ t = .conf ∧
+      MemSame t m (((m.allocT t).2.allocT t).2.freeT t)) ∨
+    ((m.allocT t).1 = false ∧ t = .conf ∧ MemSame t m (m.allocT t).2) := by
+  rcases Bool.eq_false_or_eq_true (m.allocT t).1 with h1 | h1
+  · have e1 := allocT_true m t h1
+    rcases Bool.eq_false_or_eq_true ((m.allocT t).2.allocT t).1 with h2 | h2
+    · left
+      have e2 := allocT_true (m.allocT t).2 t h2
+      exact ⟨h1, h2, by rw [e2.1, e1.1], by rw [e2.2.1, e1.2.1], Other.trans e1.2.2 e2.2.2⟩
+    · right; left
+      have e2 := allocT_false (m.allocT t).2 t h2
+      have f := freeT_pos ((m.allocT t).2.allocT t).2 t (by rw [e2.2.1, e1.1]; omega)
+      exact ⟨h1, h2, e2.1, by rw [f.1, e2.2.1, e1.1]; omega, by rw [f.2.1, e2.2.2.1, e1.2.1],
+        Other.trans e1.2.2 (Other.trans e2.2.2.2 f.2.2)⟩
+  · right; right
+    have e := allocT_false m t h1
+    exact ⟨h1, e.1, e.2⟩
+
 /-- `new_conf`: capacity 0, a capacity so large that `ex >= CC_MAX_ELEMENTS / capacity`, element
 size 0 and a capacity whose buffer would exceed `CC_MAX_ELEMENTS` bytes are all rejected before
 anything is allocated -/
-theorem new_invalid (dl cap : Nat) (grow : Nat → Nat) (exGe : Nat → Bool) (m : Mem)
+theorem new_invalid (dl cap : Nat) (grow : Nat → Nat) (exGe : Nat → Bool) (m : Mem) (t : Triple)
     (hc : cap = 0 ∨ exGe (CC_MAX_ELEMENTS / cap) = true ∨ dl = 0 ∨ CC_MAX_ELEMENTS / dl < cap) :
-    ArraySized.new dl cap grow exGe m = (.errInvalidCapacity, none, m) := by
+    ArraySized.new dl cap grow exGe m t = (.errInvalidCapacity, none, m) := by
   unfold ArraySized.new
   by_cases h1 : (decide (cap = 0) || exGe (CC_MAX_ELEMENTS / cap)) = true
   · rw [if_pos h1]
@@ -386,73 +412,84 @@ theorem new_invalid (dl cap : Nat) (grow : Nat → Nat) (exGe : Nat → Bool) (m
     rw [if_pos this]
 
 /-- the guards of the constructor, read off a call that got past them -/
-theorem new_guards (dl cap : Nat) (grow : Nat → Nat) (exGe : Nat → Bool) (m : Mem)
-    (h : (ArraySized.new dl cap grow exGe m).1 ≠ .errInvalidCapacity) :
-    0 < cap ∧ 0 < dl ∧ cap * dl ≤ CC_MAX_ELEMENTS ∧ cap ≤ CC_MAX_ELEMENTS := by
+theorem new_guards (dl cap : Nat) (grow : Nat → Nat) (exGe : Nat → Bool) (m : Mem) (t : Triple)
+    (h : (ArraySized.new dl cap grow exGe m t).1 ≠ .errInvalidCapacity) :
+    0 < cap ∧ 0 < dl ∧ cap * dl ≤ CC_MAX_ELEMENTS ∧ cap ≤ CC_MAX_ELEMENTS ∧
+    ¬ ((decide (cap = 0) || exGe (CC_MAX_ELEMENTS / cap)) = true) ∧
+    ¬ ((decide (dl = 0) || decide (cap > CC_MAX_ELEMENTS / dl)) = true) := by
   have h1 : ¬ (cap = 0 ∨ exGe (CC_MAX_ELEMENTS / cap) = true ∨ dl = 0 ∨ CC_MAX_ELEMENTS / dl < cap) := by
-    intro hc; rw [new_invalid dl cap grow exGe m hc] at h; exact h rfl
+    intro hc; rw [new_invalid dl cap grow exGe m t hc] at h; exact h rfl
   have hcap : 0 < cap := by apply Nat.pos_of_ne_zero; intro hh; exact h1 (Or.inl hh)
   have hdl : 0 < dl := by apply Nat.pos_of_ne_zero; intro hh; exact h1 (Or.inr (Or.inr (Or.inl hh)))
   have hle : cap ≤ CC_MAX_ELEMENTS / dl := by
     apply Nat.le_of_not_lt; intro hh; exact h1 (Or.inr (Or.inr (Or.inr hh)))
   have hmul : cap * dl ≤ CC_MAX_ELEMENTS := (Nat.le_div_iff_mul_le hdl).1 hle
-  exact ⟨hcap, hdl, hmul, Nat.le_trans (Nat.le_mul_of_pos_right cap hdl) hmul⟩
+  refine ⟨hcap, hdl, hmul, Nat.le_trans (Nat.le_mul_of_pos_right cap hdl) hmul, ?_, ?_⟩
+  · intro hh
+    simp only [Bool.or_eq_true, decide_eq_true_eq] at hh
+    rcases hh with hh | hh
+    · exact h1 (Or.inl hh)
+    · exact h1 (Or.inr (Or.inl hh))
+  · intro hh
+    simp only [Bool.or_eq_true, decide_eq_true_eq] at hh
+    rcases hh with hh | hh
+    · exact h1 (Or.inr (Or.inr (Or.inl hh)))
+    · exact h1 (Or.inr (Or.inr (Or.inr hh)))
 
-/-- a successful construction yields an empty array satisfying the invariant and owning two
-blocks; the element size is ≥ 1 and the buffer size in bytes `capacity * data_length` is at most
-`CC_MAX_ELEMENTS < 2^64`, so the product handed to `mem_alloc` did not wrap around `size_t` -/
-theorem new_ok (dl cap : Nat) (grow : Nat → Nat) (exGe : Nat → Bool) (m m' : Mem) (a : ArraySized)
-    (hnew : ArraySized.new dl cap grow exGe m = (.ok, some a, m')) :
+/-- the constructor past its guards, as a function of the two allocator answers -/
+theorem new_eq (dl cap : Nat) (grow : Nat → Nat) (exGe : Nat → Bool) (m : Mem) (t : Triple)
+    (h : (ArraySized.new dl cap grow exGe m t).1 ≠ .errInvalidCapacity) :
+    ArraySized.new dl cap grow exGe m t =
+      (if !(m.allocT t).1 then (.errAlloc, none, (m.allocT t).2) else
+       if !((m.allocT t).2.allocT t).1 then (.errAlloc, none, ((m.allocT t).2.allocT t).2.freeT t) else
+       (.ok, some { dataLen := dl, size := 0, capacity := cap, grow := grow, buf := fresh (cap * dl), triple := t },
+        ((m.allocT t).2.allocT t).2)) := by
+  obtain ⟨_, _, _, _, g1, g2⟩ := new_guards dl cap grow exGe m t h
+  unfold ArraySized.new
+  rw [if_neg g1, if_neg g2]
+
+/-- a successful construction yields an empty array satisfying the invariant, carrying the triple
+it was constructed with and owning two blocks of that triple; the element size is ≥ 1 and the
+buffer size in bytes `capacity * data_length` is at most `CC_MAX_ELEMENTS < 2^64` -/
+theorem new_ok (dl cap : Nat) (grow : Nat → Nat) (exGe : Nat → Bool) (m m' : Mem) (t : Triple) (a : ArraySized)
+    (hnew : ArraySized.new dl cap grow exGe m t = (.ok, some a, m')) :
     a.Inv ∧ a.abs = [] ∧ a.dataLen = dl ∧ a.capacity = cap ∧ a.grow = grow ∧
-    m'.live = m.live + 2 ∧ m'.fault = m.fault ∧ a.capacity * a.dataLen ≤ CC_MAX_ELEMENTS ∧
-    a.capacity * a.dataLen < 2 ^ 64 ∧ m'.libc = m.libc := by
-  obtain ⟨hcap, hdl, hmul, hcm⟩ := new_guards dl cap grow exGe m (by rw [hnew]; simp)
-  unfold ArraySized.new at hnew
-  split at hnew
-  · simp at hnew
-  · split at hnew
-    · simp at hnew
-    · dsimp only at hnew
-      split at hnew
-      · simp at hnew
-      · split at hnew
-        · simp at hnew
-        · rename_i h1 h2
-          simp only [Prod.mk.injEq, Option.some.injEq, true_and] at hnew
-          obtain ⟨ha, hm⟩ := hnew
-          subst ha hm
-          have e1 := Mem.alloc_fst_true m (by simpa using h1)
-          have e2 := Mem.alloc_fst_true m.alloc.2 (by simpa using h2)
-          have hM : CC_MAX_ELEMENTS < 2 ^ 64 := by decide
-          refine ⟨⟨hdl, hcap, Nat.zero_le _, by simp [fresh], hmul⟩, by simp [abs], rfl, rfl, rfl,
-            by rw [e2.1, e1.1], by rw [e2.2.1, e1.2.1], hmul, Nat.lt_of_le_of_lt hmul hM, by rw [e2.2.2, e1.2.2]⟩
+    own m' t = own m t + 2 ∧ m'.fault = m.fault ∧ a.capacity * a.dataLen ≤ CC_MAX_ELEMENTS ∧
+    a.capacity * a.dataLen < 2 ^ 64 ∧ Other t m m' ∧ a.triple = t := by
+  have hne : (ArraySized.new dl cap grow exGe m t).1 ≠ .errInvalidCapacity := by rw [hnew]; simp
+  obtain ⟨hcap, hdl, hmul, hcm, _, _⟩ := new_guards dl cap grow exGe m t hne
+  rw [new_eq dl cap grow exGe m t hne] at hnew
+  rcases two_allocs m t with ⟨h1, h2, h3, h4, h5⟩ | ⟨h1, h2, _⟩ | ⟨h1, _⟩
+  · rw [h1, h2] at hnew
+    simp only [Bool.not_true, Bool.false_eq_true, if_false, Prod.mk.injEq, Option.some.injEq, true_and] at hnew
+    obtain ⟨ha, hm⟩ := hnew
+    subst ha hm
+    have hM : CC_MAX_ELEMENTS < 2 ^ 64 := by decide
+    exact ⟨⟨hdl, hcap, Nat.zero_le _, by simp [fresh], hmul⟩, by simp [abs], rfl, rfl, rfl,
+      h3, h4, hmul, Nat.lt_of_le_of_lt hmul hM, h5, rfl⟩
+  · rw [h1, h2] at hnew; simp at hnew
+  · rw [h1] at hnew; simp at hnew
 
-/-- a refused construction yields no object and leaves the ledger as it was -/
-theorem new_refused (dl cap : Nat) (grow : Nat → Nat) (exGe : Nat → Bool) (m : Mem)
-    (h : (ArraySized.new dl cap grow exGe m).1 = .errAlloc) :
-    (ArraySized.new dl cap grow exGe m).2.1 = none ∧ MemSame m (ArraySized.new dl cap grow exGe m).2.2 := by
-  unfold ArraySized.new at h ⊢
-  split
-  · exact ⟨rfl, MemSame.refl m⟩
-  · split
-    · exact ⟨rfl, MemSame.refl m⟩
-    · rename_i hc hd
-      dsimp only
-      cases h1 : m.alloc.1
-      · have e := Mem.alloc_fst_false m h1
-        simp [MemSame, e]
-      · have e1 := Mem.alloc_fst_true m h1
-        cases h2 : m.alloc.2.alloc.1
-        · have e2 := Mem.alloc_fst_false m.alloc.2 h2
-          have f := free_of_pos m.alloc.2.alloc.2 (by omega)
-          simp only [Bool.not_true, Bool.false_eq_true, if_false, Bool.not_false, if_true]
-          exact ⟨trivial, by rw [f.1, e2.1, e1.1]; omega, by rw [f.2.1, e2.2.1, e1.2.1], by rw [f.2.2, e2.2.2, e1.2.2]⟩
-        · simp [hc, hd, h1, h2] at h
+/-- a refused construction yields no object and leaves the ledger as it was; only the configured
+allocator can refuse -/
+theorem new_refused (dl cap : Nat) (grow : Nat → Nat) (exGe : Nat → Bool) (m : Mem) (t : Triple)
+    (h : (ArraySized.new dl cap grow exGe m t).1 = .errAlloc) :
+    (ArraySized.new dl cap grow exGe m t).2.1 = none ∧ MemSame t m (ArraySized.new dl cap grow exGe m t).2.2 ∧
+    t = .conf := by
+  have hne : (ArraySized.new dl cap grow exGe m t).1 ≠ .errInvalidCapacity := by rw [h]; simp
+  rw [new_eq dl cap grow exGe m t hne] at h ⊢
+  rcases two_allocs m t with ⟨h1, h2, _⟩ | ⟨h1, h2, h3, h4⟩ | ⟨h1, h3, h4⟩
+  · rw [h1, h2] at h; simp at h
+  · rw [h1, h2]; exact ⟨rfl, h4, h3⟩
+  · rw [h1]; exact ⟨rfl, h4, h3⟩
 
-/-- `destroy` releases the two blocks of an array -/
-theorem destroy_ledger (a : ArraySized) (m : Mem) (h : 2 ≤ m.live) :
-    (a.destroy m).live = m.live - 2 ∧ (a.destroy m).fault = m.fault ∧ (a.destroy m).libc = m.libc := by
+/-- `destroy` releases the two blocks of an array through its own triple -/
+theorem destroy_ledger (a : ArraySized) (m : Mem) (h : 2 ≤ own m a.triple) :
+    own (a.destroy m) a.triple = own m a.triple - 2 ∧ (a.destroy m).fault = m.fault ∧
+    Other a.triple m (a.destroy m) := by
   unfold destroy
-  have f1 := free_of_pos m (by omega)
-  have f2 := free_of_pos m.free (by omega)
-  exact ⟨by rw [f2.1, f1.1]; omega, by rw [f2.2.1, f1.2.1], by rw [f2.2.2, f1.2.2]⟩
+  have f1 := freeT_pos m a.triple (by omega)
+  have f2 := freeT_pos (m.freeT a.triple) a.triple (by omega)
+  exact ⟨by rw [f2.1, f1.1]; omega, by rw [f2.2.1, f1.2.1], Other.trans f1.2.2 f2.2.2⟩
+
+end CC.ArraySized
